@@ -99,7 +99,11 @@ func FinishKernel(o *Outcome, s *kernel.Sim, r *kernel.Result, prefix string) {
 	if r.Budget {
 		// bounded liveness: the budget is far (>40x) above what any run on the unchanged tree
 		// needs, so running into it means the run does not terminate (livelock)
-		o.Violate(prefix+"/no-termination-within-step-budget", "step budget exceeded; still parked: "+join(s.ParkedSites()))
+		what := "step budget exceeded"
+		if r.WallBudget {
+			what = "wall-clock budget of one run exceeded after " + fmt.Sprint(r.Steps) + " steps"
+		}
+		o.Violate(prefix+"/no-termination-within-step-budget", what+"; still parked: "+join(s.ParkedSites()))
 	}
 	o.Nontrivial = r.Choices >= 1 && r.MaxLive >= 2
 	if s.KeepTrace {
